@@ -189,6 +189,8 @@ class ANMLGrammar:
             quantified_expression | relations_expression | boolean_const,
             [
                 (keyword(TK_NOT), 1, OpAssoc.RIGHT),
+                # (in)equality between Boolean expressions: the ANMLWriter prints Iff as "=="
+                (one_of([TK_EQUALS, TK_NOT_EQUALS]), 2, OpAssoc.LEFT, group_binary),
                 (keyword(TK_AND, TK_OR, TK_XOR), 2, OpAssoc.LEFT, group_binary),
                 (keyword(TK_IMPLIES), 2, OpAssoc.RIGHT, group_binary),
                 (
